@@ -44,6 +44,8 @@ CONSTANTS A,         \* alphabet size (letters 1..A, A = 'N')
           NFiles,    \* set of file counts per alias, subset of {1, 2}
           Lazy,      \* the lazyLoad argument, subset of {"none", "this", "other", "star"}: None / a tuple naming this alias /
                      \* a tuple naming only OTHER aliases (demux.py: ("10x_3M-february-2018",)) / '*'
+          ProbeMax,  \* pure table reads Lookup(q) are explored for strings with q[1] <= ProbeMax (A = all). The table invariants
+                     \* quantify over ALL strings in every loaded state anyway; lookups that trigger or follow a lazy load are never restricted
           Touches,   \* how a lazy alias is first touched: subset of {"lookup", "getitem"}
           Variant
 
@@ -187,6 +189,7 @@ Tables(q) == IF q \in DOMAIN wl /\ (Variant # "falsy_index" \/ wl[q] # 0) THEN <
 Lookup(q) ==
     /\ pc = "ready" /\ last = None
     /\ (pending # 0 => touch = "lookup")        \* scenario: which access touches the lazy alias first
+    /\ (pending = 0 => q[1] <= ProbeMax)
     /\ IF Tables(q) # None \/ pending = 0
        THEN last' = << q, Tables(q) >> /\ UNCHANGED << pc, want, fi >>
        ELSE want' = "lookup" /\ fi' = pending /\ pc' = "detect" /\ UNCHANGED last      \* parse_pending_barcode_file_of_alias
